@@ -175,10 +175,18 @@ META = {
     },
     "C18": {
         "bounds": "TimeScale::from_picos / picos / suffix for every u128 value; scale_value for every non-negative f64 "
-                  "(incl. inf) and both byte formats; suffix tables; value/start division in the kilo bucket",
-        "outside": "digit truncation (format_f64 works on f64::to_string output: core::fmt / Grisu under CBMC ran out of 24 GB "
-                   "in the design probes), Display padding, throughput double rounding",
-        "assumptions": COMMON_TRUST,
+                  "(incl. inf) and both byte formats; suffix tables; value/start division in the kilo bucket; "
+                  "format_f64 on modelled decimal texts I.F with symbolic digits, shapes (I,F) in {(1,4),(2,3),(3,2),(4,2)} at 4 "
+                  "significant figures, (1,1) at 0..=6 (thorough: (1,6),(2,5) at 0..=8, (5,2)); any 3-byte text without a point; "
+                  "DisplayThroughput::fmt for each counter kind, any count < 2^53 per second, both byte formats (number printer "
+                  "stubbed to \"1\")",
+        "outside": "that f64::to_string prints the exact shortest decimal (std, trusted: the text handed to format_f64 is a "
+                   "model of it), texts longer than 8 bytes, Display width/fill padding, throughput double rounding, durations "
+                   "other than one second in the throughput cell",
+        "assumptions": COMMON_TRUST + ["<f64 as ToString>::to_string stubbed: returns the modelled text (truncation cells) or \"1\" "
+                                       "(throughput cell)",
+                                       "Formatter::new (unstable std constructor) enabled for the scratch crate under cfg(kani) to "
+                                       "call Display::fmt directly"],
     },
     "C19": {
         "bounds": "sample_size unset; (n, T, precision) in {(1,1,10 ps), (2,1,1 ps with symbolic max_time), (1,2,1000 ps)} "
@@ -363,8 +371,11 @@ CLAIMS.update({
         "Macro glue, longer lists and String/Cow reuse paths are outside."),
     "C18": _claim(
         "Unit / prefix selection decided over the full input domain: every u128 picosecond value and every non-negative f64 "
-        "picks the largest unit not exceeding it, tables match the documentation; scaled value = value/start (kilo bucket).",
-        "Digit truncation through f64::to_string is outside (core::fmt under CBMC exhausts memory)."),
+        "picks the largest unit not exceeding it, tables match the documentation; scaled value = value/start (kilo bucket). "
+        "format_f64 on a modelled decimal text with symbolic digits keeps all integer digits and max(0, sig - int digits) "
+        "decimals by truncation, strips trailing zeros and a dangling point; DisplayThroughput picks decimal prefixes for "
+        "non-byte counters and the configured ones for bytes.",
+        "Trusted: f64::to_string (modelled), Kani/CBMC. Display padding and double rounding of throughputs are outside."),
     "C19": _claim(
         "Tuning branch of the real loop with symbolic clock: size starts at 1 and doubles exactly while "
         "floor(slowest/precision) <= 100 (boundary value 100 witnessed by a cover), the passing round is the first recorded "
